@@ -7,7 +7,7 @@
    synchronous run is matched by a maximal asynchronous run with the same output. *)
 From stdpp Require Import gmap strings sorting.
 Require Import Grits.Base Grits.ModeDefs Grits.Modes Grits.STypes Grits.Forms Grits.Subst Grits.TcDeps Grits.Expand.
-Require Import Grits.Runtime Grits.proofs.RuntimeFacts Grits.proofs.Diamond Grits.proofs.Determinism.
+Require Import Grits.Runtime Grits.RuntimeFootprint Grits.proofs.RuntimeFacts Grits.proofs.Diamond Grits.proofs.Determinism.
 
 Definition bufs_empty (c : config) : Prop := forall k st, chans c !! k = Some st -> ch_buf st = None.
 
